@@ -456,6 +456,12 @@ def judge(fmt, case, obs):
                 d = i["data"]
                 d = bytes(d) if isinstance(d, (bytes, bytearray)) else d
                 have.append(alt.get(d, d) if isinstance(d, bytes) else d)
+            # an image handed out by page/slide k must say that it sits on k (also when the same part is drawn on several pages)
+            if kind == "page" and isinstance(ui, int):
+                stale = [i["meta"].get("unit_number") for i in ou["images"] if i["meta"].get("unit_number") not in (ui,)]
+                if stale:
+                    fails.append(("unit", "unit number %r: its get_images() returns image(s) whose metadata says unit_number %r" % (ui, stale[:3])))
+                    break
             foreign = [b for b in have if b in placed and b not in want]     # bytes embedded elsewhere in the document
             if foreign:
                 fails.append(("unit", "unit number %r: get_images() holds %s which is not anchored on that %s (anchored there: %s)"
